@@ -47,6 +47,11 @@ def message : List (List Char) → List Char
   | [a] => encode a
   | a :: b :: rest => encode a ++ ' ' :: message (b :: rest)
 
+/-- the request `kvarnctl <command> <args…>` puts on the socket (`ctl/src/main.rs`): with arguments every word —
+the command too — is encoded; without any, the command is sent as typed (which is how `-c "ping a b"` works). -/
+def kvarnctl (cmd : List Char) (args : List (List Char)) : List Char :=
+  if args.isEmpty then cmd else message (cmd :: args)
+
 /-! ### control-socket dispatch (`ctl::listen` handler closure) -/
 
 inductive PluginKind | ok | error deriving DecidableEq, Repr
